@@ -6,7 +6,7 @@
 From Coq Require Import String.
 From Coq Require Import List NArith Bool.
 From HS Require Import Base.Prelude Model.Value Model.Escape Model.Version Model.Json Model.ZincDump Model.ZincParse.
-From HS Require Import Proofs.EscapeP Proofs.ZincParseP Proofs.ZincDumpP Proofs.ZincNumP Proofs.ZincDateP Proofs.ZincListP Proofs.ZincGridP Proofs.ZincDictP Proofs.ZincMetaP Proofs.ZincLeavesP Proofs.ZincDocP Proofs.ZincNestP Proofs.ZincCoordP Proofs.ZincXStrP Proofs.ZincDateTimeP.
+From HS Require Import Proofs.EscapeP Proofs.ZincParseP Proofs.ZincDumpP Proofs.ZincNumP Proofs.ZincDateP Proofs.ZincListP Proofs.ZincGridP Proofs.ZincDictP Proofs.ZincMetaP Proofs.ZincLeavesP Proofs.ZincDocP Proofs.ZincNestP Proofs.ZincCoordP Proofs.ZincXStrP Proofs.ZincDateTimeP Proofs.ZincMultiP.
 Import ListNotations.
 Open Scope N_scope.
 
@@ -232,6 +232,60 @@ Theorem C01_document : forall s g, s <> [] -> (last s 0 =? 10) = false -> no_adj
   zparse_grid (s ++ [10]) = Ok g -> zparse_doc (s ++ [10]) = Ok [g].
 Proof. exact doc_single. Qed.
 
+(* SEVERAL GRIDS IN ONE DOCUMENT: the writer joins the grid texts with a line feed, so that an empty line separates them;
+   parser.parse cuts the text there again and reads the grids in order.  For grid texts that are non-empty lines ended by
+   one line feed each (body_ok), not starting with a blank: if each grid is written as its text and each text is read as
+   its grid, the document written for the list of grids is read back as that list. *)
+Theorem C01_multi_grid : forall gs bodies, bodies <> [] -> Forall body_ok bodies -> Forall nonblank_hd bodies ->
+  Forall2 (fun g b => zdump_top g = Ok (b ++ [10])%list) gs bodies ->
+  Forall2 (fun b g => zparse_grid (b ++ [10]) = Ok g) bodies gs ->
+  exists t, zdump_doc gs = Ok t /\ zparse_doc t = Ok gs.
+Proof. exact doc_roundtrip. Qed.
+Example C01_multi_grid_nonvacuous :
+  let g1 := plain_grid [s_ "a"] [[VBool true]] in
+  let g2 := plain_grid [s_ "b"; s_ "c"] [[VNull; VMarker]; [VStr (s_ "x"); VNA]] in
+  zdump_doc [g1; g2] = Ok (s_ "ver:""3.0""
+a
+T
+
+ver:""3.0""
+b,c
+N,M
+""x"",NA
+") /\ zparse_doc (s_ "ver:""3.0""
+a
+T
+
+ver:""3.0""
+b,c
+N,M
+""x"",NA
+") = Ok [g1; g2].
+Proof.
+  intros g1 g2.
+  destruct (C01_multi_grid [g1; g2] [s_ "ver:""3.0""
+a
+T"; s_ "ver:""3.0""
+b,c
+N,M
+""x"",NA"]) as [t [Hd Hp]].
+  - discriminate.
+  - repeat constructor; vm_compute; try reflexivity; discriminate.
+  - repeat constructor.
+  - repeat constructor; vm_compute; reflexivity.
+  - repeat constructor; vm_compute; reflexivity.
+  - assert (Et : zdump_doc [g1; g2] = Ok (s_ "ver:""3.0""
+a
+T
+
+ver:""3.0""
+b,c
+N,M
+""x"",NA
+")) by (vm_compute; reflexivity).
+    rewrite Et in Hd. apply ok_inj in Hd. subst t. split; [exact Et|exact Hp].
+Qed.
+
 Example C01_document_nonvacuous :
   let mps := [(s_ "site", VMarker, []); (s_ "dis", VStr (s_ "a b"), s_ """a b""")] in
   let cols := [(s_ "a", [(s_ "unit", VStr (s_ "kW"), s_ """kW"""); (s_ "his", VMarker, [])]); (s_ "b", [])] in
@@ -371,6 +425,7 @@ Print Assumptions C01_full_grid.
 Print Assumptions C01_value_relation.
 Print Assumptions C01_grid_with_metadata.
 Print Assumptions C01_datetime.
+Print Assumptions C01_multi_grid.
 Print Assumptions C01_document.
 Print Assumptions C01_more_leaves.
 Print Assumptions C01_grid_values.
